@@ -195,6 +195,11 @@ def first_guard_rejects_whence(fn):
     return False
 
 
+def last_assignment_in(f, name, before):
+    from ..effects import last_assignment
+    return last_assignment(name, f, before)
+
+
 def run(ctx):
     chk = Check('C07', ctx)
     prog, K, E = ctx.prog, ctx.kinds, ctx.effects
@@ -284,6 +289,64 @@ def run(ctx):
                 chk.bad(R3, f.qualname, norm(mv)[:100], 'the cached position is not refreshed (_update_pos) after moving the underlying handle: the next read computes a wrong remaining length',
                         where=f'{f.module.relpath}:{mv.lineno}')
 
+    # read(size): the read-everything branch is selected exactly by "size is None or size < 0" (read(0) must return b'' like any file object)
+    szp = rd.params[0] if rd.params else 'size'
+    allb = [n for n in walk_local(rd.node) if isinstance(n, ast.If) and any(isinstance(c, ast.Call) and isinstance(c.func, ast.Attribute) and c.func.attr == 'read'
+                                                                             and c.args and isinstance(c.args[0], ast.Name) and c.args[0].id == rem for s2 in n.body for c in ast.walk(s2))]
+    okall = False
+    if len(allb) == 1:
+        t = allb[0].test
+        parts = t.values if isinstance(t, ast.BoolOp) and isinstance(t.op, ast.Or) else [t]
+        okall = True
+        neg_seen = False
+        for pt in parts:
+            tx = norm(pt).replace(' ', '')
+            if tx in (f'{szp}isNone',):
+                continue
+            if tx in (f'{szp}<0', f'0>{szp}', f'{szp}<=-1', f'-1>={szp}'):
+                neg_seen = True
+                continue
+            okall = False
+        okall = okall and neg_seen
+    if okall:
+        chk.ok(R3, rd.qualname, norm(allb[0].test), detail='all remaining bytes are returned only for size None / negative; read(0) takes the bounded branch and returns b\'\'')
+    else:
+        chk.bad(R3, rd.qualname, norm(allb[0].test) if allb else 'read-all branch', 'the branch that returns all remaining bytes is not selected exactly by `size is None or size < 0`: e.g. read(0) '
+                'must return an empty bytes object as for any file, and a positive size must never read everything', where=f'{rd.module.relpath}:{(allb[0].lineno if allb else rd.lineno)}')
+
+    # ---------------------------------------------------------------- R7: one coordinate mapping (object position <-> pack-file position)
+    R7 = chk.rule('C07.R7', 'PackedObjectReader converts between object and pack-file coordinates only as handle.tell() - offset and offset + target', 4)
+    off_attr = None
+    for n in walk_local(init.node):
+        if isinstance(n, ast.Assign) and isinstance(n.targets[0], ast.Attribute) and isinstance(n.value, ast.Name) and n.value.id == 'offset':
+            off_attr = n.targets[0].attr
+    chk.require(off_attr is not None, 'PackedObjectReader.__init__: attribute holding the object offset not found')
+    por = prog.cls(POR)
+
+    def is_off(e):
+        return isinstance(e, ast.Attribute) and e.attr == off_attr and norm(e.value) == 'self'
+    for mname, f in sorted(por.methods.items()):
+        for n in walk_local(f.node):
+            if isinstance(n, ast.Call) and isinstance(n.func, ast.Attribute) and '_fhandle' in names_in(n.func.value):
+                if n.func.attr == 'tell':
+                    par = getattr(n, '_parent', None)
+                    if isinstance(par, ast.BinOp) and isinstance(par.op, ast.Sub) and par.left is n and is_off(par.right):
+                        chk.ok(R7, f.qualname, norm(par), detail='pack position -> object position', nontrivial=False)
+                    else:
+                        chk.bad(R7, f.qualname, norm(par if par is not None else n)[:100], 'the position of the pack handle is used without subtracting the object\'s offset: positions reported / stored '
+                                'for the object are then pack-file positions', where=f'{f.module.relpath}:{n.lineno}')
+                elif n.func.attr == 'seek':
+                    a = n.args[0] if n.args else None
+                    if isinstance(a, ast.Name):
+                        a2 = last_assignment_in(f, a.id, n.lineno)
+                        a = a2 if a2 is not None else a
+                    okm = is_off(a) or (isinstance(a, ast.BinOp) and isinstance(a.op, ast.Add) and ((is_off(a.left) and isinstance(a.right, ast.Name)) or (is_off(a.right) and isinstance(a.left, ast.Name))))
+                    if okm and len(n.args) == 1:
+                        chk.ok(R7, f.qualname, norm(n) + ' with ' + norm(a), detail='object position -> pack position = offset + target', nontrivial=False)
+                    else:
+                        chk.bad(R7, f.qualname, norm(n) + ' with ' + (norm(a) if a is not None else '?'), 'the pack handle is moved to something other than `offset + <object position>` '
+                                '(absolute seek): the stream would be positioned on other bytes than the ones requested', where=f'{f.module.relpath}:{n.lineno}')
+
     # ---------------------------------------------------------------- R4
     for q in (POR + '.seek', ZL + '.seek'):
         f = prog.fn(q)
@@ -350,6 +413,82 @@ def run(ctx):
             chk.ok(R5, f'{ZL}.{mname}', f'if self.{flag}:', detail='tested before anything else', nontrivial=False)
         else:
             chk.bad(R5, f'{ZL}.{mname}', 'proxy test', f'{mname}() no longer tests the proxy flag first: after the switch it would use the stale compressed stream', where=f'{zcls.module.relpath}:{mf.lineno}')
+
+    # ---------------------------------------------------------------- R8: decompresser position bookkeeping and seek loop shape
+    R8 = chk.rule('C07.R8', 'decompresser: position advanced by exactly the bytes handed out; forward seek reads at most up to the target; a backward target rewinds first', 3)
+    rc = zcls.methods.get('_read_compressed')
+    chk.require(rc is not None, f'{ZL}._read_compressed not found')
+    # the bytes returned from the buffer: `X, buf = buf[:size], buf[size:]` (or two assignments), then pos += len(X), then return X
+    rets = [n for n in walk_local(rc.node) if isinstance(n, ast.Return) and isinstance(n.value, ast.Name)]
+    okpos = bool(rets)
+    for r in rets:
+        x = r.value.id
+        blk = getattr(r, '_parent', None)
+        body = getattr(blk, 'body', [])
+        if r not in body:
+            okpos = False
+            continue
+        before = body[:body.index(r)]
+        adv = [st for st in before if isinstance(st, ast.AugAssign) and isinstance(st.op, ast.Add) and isinstance(st.target, ast.Attribute) and st.target.attr == '_pos'
+               and norm(st.value) == f'len({x})']
+        setpos = [st for st in before if isinstance(st, (ast.Assign, ast.AugAssign)) and any(isinstance(t, ast.Attribute) and t.attr == '_pos' for t in ([st.target] if isinstance(st, ast.AugAssign) else st.targets))]
+        src = [st for st in before if isinstance(st, ast.Assign) and x in names_in(st.targets[0])]
+        # the split of the buffer: head is returned, tail stays, cut at the same index
+        split_ok = False
+        for st in src:
+            tg, val = st.targets[0], st.value
+            if isinstance(tg, ast.Tuple) and isinstance(val, ast.Tuple) and len(tg.elts) == 2 and len(val.elts) == 2:
+                h, t = val.elts
+                if isinstance(h, ast.Subscript) and isinstance(t, ast.Subscript) and isinstance(h.slice, ast.Slice) and isinstance(t.slice, ast.Slice) \
+                        and h.slice.lower is None and t.slice.upper is None and h.slice.upper is not None and t.slice.lower is not None and norm(h.slice.upper) == norm(t.slice.lower) \
+                        and norm(h.value) == norm(t.value) == norm(tg.elts[1]) and norm(tg.elts[0]) == x:
+                    split_ok = True
+        if not split_ok:
+            # two-statement spelling: x = B[:k] ; B = B[k:]
+            heads = [st for st in before if isinstance(st, ast.Assign) and norm(st.targets[0]) == x and isinstance(st.value, ast.Subscript) and isinstance(st.value.slice, ast.Slice)
+                     and st.value.slice.lower is None and st.value.slice.upper is not None]
+            for hst in heads:
+                B, k = norm(hst.value.value), norm(hst.value.slice.upper)
+                tails = [st for st in before if isinstance(st, ast.Assign) and norm(st.targets[0]) == B and isinstance(st.value, ast.Subscript) and isinstance(st.value.slice, ast.Slice)
+                         and st.value.slice.upper is None and st.value.slice.lower is not None and norm(st.value.slice.lower) == k and norm(st.value.value) == B]
+                if len(tails) == 1 and before.index(tails[0]) > before.index(hst):
+                    split_ok = True
+        if not (len(adv) == 1 and len(setpos) == 1 and split_ok):
+            okpos = False
+    if okpos:
+        chk.ok(R8, rc.qualname, 'self._pos += len(<returned head of the buffer>)', detail='the buffer is cut at one index into (returned, kept) and the position advances by the returned length only')
+    else:
+        chk.bad(R8, rc.qualname, 'position bookkeeping', 'the decompresser position is not advanced by exactly the length of the bytes handed out (or the buffer is not cut at one index into returned / kept parts): '
+                'tell() and every later seek drift away from the data actually consumed', where=f'{rc.module.relpath}:{rc.lineno}')
+    # forward seek loop: while tell() < target: read(min(c, target - tell()))
+    tparam = si.params[0]
+    fl = [l for l in loops if isinstance(l.test, ast.Compare) and isinstance(l.test.ops[0], ast.Lt) and norm(l.test.comparators[0]) == tparam and 'tell' in norm(l.test.left)]
+    okfl = len(fl) == 1
+    if okfl:
+        rds = [c for c in ast.walk(fl[0]) if isinstance(c, ast.Call) and isinstance(c.func, ast.Attribute) and c.func.attr == 'read']
+        okfl = bool(rds)
+        for c in rds:
+            a = c.args[0] if c.args else None
+            bound = None
+            if isinstance(a, ast.Call) and norm(a.func) == 'min':
+                bound = [x for x in a.args if isinstance(x, ast.BinOp) and isinstance(x.op, ast.Sub) and norm(x.left) == tparam and 'tell' in norm(x.right)]
+            elif isinstance(a, ast.BinOp) and isinstance(a.op, ast.Sub) and norm(a.left) == tparam and 'tell' in norm(a.right):
+                bound = [a]
+            if not bound:
+                okfl = False
+    if okfl:
+        chk.ok(R8, si.qualname, norm(fl[0].test) + ': read(min(.., target - tell()))', detail='the forward seek never reads past the requested position')
+    else:
+        chk.bad(R8, si.qualname, 'forward-seek loop', 'the forward-seek loop reads chunks that are not bounded by (target - current position): the stream ends up beyond the requested position',
+                where=f'{si.module.relpath}:{(fl[0].lineno if fl else si.lineno)}')
+    # backward: `if target < tell(): <rewind>` before the forward loop
+    bw = [n for n in si.node.body if isinstance(n, ast.If) and isinstance(n.test, ast.Compare) and isinstance(n.test.ops[0], ast.Lt) and norm(n.test.left) == tparam and 'tell' in norm(n.test.comparators[0])]
+    okbw = len(bw) == 1 and fl and bw[0].lineno < fl[0].lineno and any(isinstance(c, ast.Call) and isinstance(c.func, ast.Attribute) and c.func.attr in ('seek', '_seek_internal') and c.args
+                                                                       and isinstance(c.args[0], ast.Constant) and c.args[0].value == 0 for c in ast.walk(bw[0]))
+    if okbw:
+        chk.ok(R8, si.qualname, norm(bw[0].test) + ': seek(0)', detail='a target behind the current position restarts from 0 before reading forward')
+    else:
+        chk.bad(R8, si.qualname, 'backward seek', 'a target behind the current position no longer rewinds to 0 before the forward loop: the seek silently stays at the old position', where=f'{si.module.relpath}:{si.lineno}')
 
     R6 = chk.rule('C07.R6', 'decompresser rewind (re-inflate from 0) resets every piece of decompression state that __init__ initialises', 1)
     rewind_reset(ctx, chk, R6)
